@@ -133,6 +133,13 @@ pub trait CtxCommon: Send + Sync {
     fn drop_scan(self: Box<Self>, needles: &[&[u8]]) -> ScanReport;
     /// Offsets at which each needle is found in the live context's own storage (no drop)
     fn peek(&self, needles: &[&[u8]]) -> (usize, Vec<Vec<usize>>);
+    /// XORs 0xFF over `len` bytes at `off` of the live context's own storage (an involution: calling it
+    /// twice restores the bytes). Used to find out whether a region is read by the library at all.
+    fn poke(&mut self, off: usize, len: usize);
+    /// Ordinary drop of the boxed context with its concrete type known at the call site, so that the
+    /// destructor and the deallocation are compiled together exactly as in user code that owns a
+    /// `Box<AeadCtxS<..>>` (a virtual drop through `Box<dyn ..>` would hide one from the other).
+    fn heap_drop(self: Box<Self>);
 }
 
 pub trait CtxS: CtxCommon {
@@ -193,6 +200,22 @@ macro_rules! ctx_common {
             }
             fn drop_scan(self: Box<Self>, needles: &[&[u8]]) -> ScanReport {
                 scan_drop::<Self>(*self, needles)
+            }
+            fn heap_drop(self: Box<Self>) {
+                drop(self)
+            }
+            fn poke(&mut self, off: usize, len: usize) {
+                let n = std::mem::size_of::<Self>();
+                if off + len > n {
+                    return;
+                }
+                let p = self as *mut Self as *mut u8;
+                for i in off..off + len {
+                    unsafe {
+                        let b = std::ptr::read_volatile(p.add(i));
+                        std::ptr::write_volatile(p.add(i), b ^ 0xFF);
+                    }
+                }
             }
             fn peek(&self, needles: &[&[u8]]) -> (usize, Vec<Vec<usize>>) {
                 let n = std::mem::size_of::<Self>();
@@ -437,6 +460,10 @@ pub trait SuiteOps: Send + Sync {
     /// setup_receiver + a 32-byte export through shared references to those key objects.
     /// Returns the per-thread results followed by one more result computed afterwards on one thread.
     fn setup_r_par(&self, m: &ModeArgs, skr: &[u8], enc: &[u8], info: &[u8], threads: usize) -> R<Vec<Result<Vec<u8>, HpkeError>>>;
+    /// The receiver's private key and the encapsulated key are deserialized ONCE and the same objects are
+    /// used for several setups in a row, each expecting a different sender key (Auth modes) or none.
+    /// Result per setup: export(32) or the error.
+    fn setup_r_reuse(&self, m: &ModeArgs, skr: &[u8], enc: &[u8], info: &[u8], pks_list: &[&[u8]]) -> R<Vec<Result<Vec<u8>, HpkeError>>>;
     /// Same for the sender: one shared recipient public key (and identity key pair), every thread with its
     /// own copy of the same scripted RNG bytes. Result per thread: enc || export(32)
     fn setup_s_par(&self, m: &ModeArgs, pkr: &[u8], info: &[u8], rng: &[u8], threads: usize) -> R<Vec<Result<Vec<u8>, HpkeError>>>;
@@ -529,6 +556,24 @@ where
         });
         res.push(one(&mode, &skr, &enc));
         Ok(res)
+    }
+    fn setup_r_reuse(&self, m: &ModeArgs, skr: &[u8], enc: &[u8], info: &[u8], pks_list: &[&[u8]]) -> R<Vec<Result<Vec<u8>, HpkeError>>> {
+        let skr = at(M::PrivateKey::from_bytes(skr), "skr")?;
+        let enc = at(M::EncappedKey::from_bytes(enc), "enc")?;
+        let mut out = Vec::new();
+        for pks in pks_list {
+            let mut mm = m.clone();
+            mm.pks = pks.to_vec();
+            let mode = mode_r::<M>(&mm)?;
+            let r = (|| -> Result<Vec<u8>, HpkeError> {
+                let ctx = hpke::setup_receiver::<A, K, M>(&mode, &skr, &enc, info)?;
+                let mut o = vec![0u8; 32];
+                ctx.export(b"reuse", &mut o)?;
+                Ok(o)
+            })();
+            out.push(r);
+        }
+        Ok(out)
     }
     fn setup_s_par(&self, m: &ModeArgs, pkr: &[u8], info: &[u8], rng: &[u8], threads: usize) -> R<Vec<Result<Vec<u8>, HpkeError>>> {
         let mode = mode_s::<M>(m)?;
@@ -724,38 +769,38 @@ pub fn kem_ops(kem: u16) -> Option<Box<dyn KemOps>> {
     }
 }
 
-fn with_kem<A: Aead + 'static, K: Kdf + 'static>(kem: u16) -> Option<Box<dyn SuiteOps>>
-where
-    A::AeadImpl: 'static,
-{
-    match kem {
-        #[cfg(feature = "x25519")]
-        0x0020 => Some(Box::new(Sx::<A, K, hpke::kem::X25519HkdfSha256>(PhantomData))),
-        #[cfg(feature = "p256")]
-        0x0010 => Some(Box::new(Sx::<A, K, hpke::kem::DhP256HkdfSha256>(PhantomData))),
-        #[cfg(feature = "p384")]
-        0x0011 => Some(Box::new(Sx::<A, K, hpke::kem::DhP384HkdfSha384>(PhantomData))),
-        #[cfg(feature = "p521")]
-        0x0012 => Some(Box::new(Sx::<A, K, hpke::kem::DhP521HkdfSha512>(PhantomData))),
-        _ => None,
-    }
-}
-
-fn with_kdf<A: Aead + 'static>(kem: u16, kdf: u16) -> Option<Box<dyn SuiteOps>> {
-    match kdf {
-        1 => with_kem::<A, HkdfSha256>(kem),
-        2 => with_kem::<A, HkdfSha384>(kem),
-        3 => with_kem::<A, HkdfSha512>(kem),
-        _ => None,
-    }
+// Every suite is instantiated with concrete types, so that no auto-trait has to be provable for a
+// generic parameter (the crate promises Send + Sync for its concrete contexts, not for `K: Kdf`).
+macro_rules! suite_row {
+    ($kemty:ty, $kdf:expr, $aead:expr) => {
+        match ($kdf, $aead) {
+            (1, 1) => Some(Box::new(Sx::<AesGcm128, HkdfSha256, $kemty>(PhantomData)) as Box<dyn SuiteOps>),
+            (2, 1) => Some(Box::new(Sx::<AesGcm128, HkdfSha384, $kemty>(PhantomData)) as Box<dyn SuiteOps>),
+            (3, 1) => Some(Box::new(Sx::<AesGcm128, HkdfSha512, $kemty>(PhantomData)) as Box<dyn SuiteOps>),
+            (1, 2) => Some(Box::new(Sx::<AesGcm256, HkdfSha256, $kemty>(PhantomData)) as Box<dyn SuiteOps>),
+            (2, 2) => Some(Box::new(Sx::<AesGcm256, HkdfSha384, $kemty>(PhantomData)) as Box<dyn SuiteOps>),
+            (3, 2) => Some(Box::new(Sx::<AesGcm256, HkdfSha512, $kemty>(PhantomData)) as Box<dyn SuiteOps>),
+            (1, 3) => Some(Box::new(Sx::<ChaCha20Poly1305, HkdfSha256, $kemty>(PhantomData)) as Box<dyn SuiteOps>),
+            (2, 3) => Some(Box::new(Sx::<ChaCha20Poly1305, HkdfSha384, $kemty>(PhantomData)) as Box<dyn SuiteOps>),
+            (3, 3) => Some(Box::new(Sx::<ChaCha20Poly1305, HkdfSha512, $kemty>(PhantomData)) as Box<dyn SuiteOps>),
+            (1, 0xFFFF) => Some(Box::new(Sx::<ExportOnlyAead, HkdfSha256, $kemty>(PhantomData)) as Box<dyn SuiteOps>),
+            (2, 0xFFFF) => Some(Box::new(Sx::<ExportOnlyAead, HkdfSha384, $kemty>(PhantomData)) as Box<dyn SuiteOps>),
+            (3, 0xFFFF) => Some(Box::new(Sx::<ExportOnlyAead, HkdfSha512, $kemty>(PhantomData)) as Box<dyn SuiteOps>),
+            _ => None,
+        }
+    };
 }
 
 pub fn suite_ops(kem: u16, kdf: u16, aead: u16) -> Option<Box<dyn SuiteOps>> {
-    match aead {
-        1 => with_kdf::<AesGcm128>(kem, kdf),
-        2 => with_kdf::<AesGcm256>(kem, kdf),
-        3 => with_kdf::<ChaCha20Poly1305>(kem, kdf),
-        0xFFFF => with_kdf::<ExportOnlyAead>(kem, kdf),
+    match kem {
+        #[cfg(feature = "x25519")]
+        0x0020 => suite_row!(hpke::kem::X25519HkdfSha256, kdf, aead),
+        #[cfg(feature = "p256")]
+        0x0010 => suite_row!(hpke::kem::DhP256HkdfSha256, kdf, aead),
+        #[cfg(feature = "p384")]
+        0x0011 => suite_row!(hpke::kem::DhP384HkdfSha384, kdf, aead),
+        #[cfg(feature = "p521")]
+        0x0012 => suite_row!(hpke::kem::DhP521HkdfSha512, kdf, aead),
         _ => None,
     }
 }
